@@ -1,13 +1,45 @@
-"""Contract of BGP.send_open (C05 owns the octets; the session layer uses the summary)."""
+"""Contract of BGP.send_open and BGP.capability_negotiate (C05): the OPEN written on a new connection is a
+function of the configuration only."""
 import z3
 from pyvc.values import SNum, SBool, SBytes, Obj, Opaque, mk_num, mk_bool, to_term, to_bool_term
 from pyvc.contracts import ANY, Any
+from specs import wire, open as OS
+
+
+def conf(s):
+    return s.it.m.conf.f
+
+
+def caps(s):
+    return conf(s)['bgp'].f['running_config']['capability']
+
+
+def p_capability_negotiate(s, P):
+    """C05: nothing learned in an earlier session may shrink the configured capability set.  The remote set was
+    reset when the connection was made, so there is nothing to negotiate against yet."""
+    s.c.requires(z3.BoolVal(not s.get(caps(s), 'remote')), 'C05 the recorded peer capabilities belong to this connection (none yet)')
+    return None
 
 
 def p_send_open(s, P):
-    """one OPEN written to the connection, counted once, reported once to the application"""
+    """one OPEN = f(configuration) written to the connection, counted once, reported once"""
+    s.c.requires(z3.BoolVal(not s.get(caps(s), 'remote')), 'C05 the recorded peer capabilities belong to this connection (none yet)')
+    peering = s.get(P, 'factory')
+    fsm = s.get(P, 'fsm')
+    my_asn = s.get(peering, 'my_asn')
+    hold = s.get(fsm, 'hold_time')
+    s.c.requires(to_term(hold) == to_term(conf(s)['time'].f['hold_time']),
+                 'C05 NoPoison: the hold time offered is the configured one')
+    bgp_id = s.get(peering, 'bgp_id')
+    s.c.requires(z3.BoolVal(bgp_id is not None), 'BGP identifier has been chosen')
+    s.c.requires(z3.And(to_term(bgp_id) >= 0, to_term(bgp_id) < 2 ** 32, to_term(my_asn) >= 1, to_term(my_asn) < 2 ** 32), 'field ranges')
+    local = caps(s)['local']
+    big = s.branch(to_term(my_asn) > 65535)
+    items = OS.local_cap_items(big, my_asn, local)
+    asn2 = OS.AS_TRANS if big else my_asn
+    octets = OS.open_msg(4, asn2, hold, bgp_id, [[i] for i in items])
+    s.eff('Write', s.get(P, 'transport'), octets)
     d = s.get(P, 'msg_sent_stat')
     s.set(d, 'Opens', s.add(s.get(d, 'Opens'), 1))
-    s.eff('Write', s.get(P, 'transport'), ANY)
     s.eff('Report', 'send_open', ANY, ANY)
-    s.dont_care(P, 'add_path_ipv4_send')
+    return None
